@@ -75,7 +75,12 @@ fn run<T: PartialEq + Eq + Hash + 'static>(c: &SecEqCase, mk: fn(String) -> T) -
         a.hash(&mut rec);
         let needle = c.a.as_bytes();
         let window = &needle[..needle.len().min(16)];
-        if rec.0.windows(window.len()).any(|w| w == window) {
+        // confirmed against what an UNRELATED secret of the same length makes `Hash` write: bytes that are there as well (the
+        // length prefix of the digest slice is `20 00 00 00 00 00 00 00`) did not come from this secret
+        let unrelated: String = c.a.chars().map(|ch| if ch == 'q' { 'r' } else { 'q' }).collect();
+        let mut rec2 = Recording::default();
+        mk(unrelated).hash(&mut rec2);
+        if rec.0.windows(window.len()).any(|w| w == window) && !rec2.0.windows(window.len()).any(|w| w == window) {
             oracle.push(("C10:hash-exposes-plaintext".into(), format!("Hash::hash of a secret {:?} wrote its plaintext to the Hasher", shorten(&c.a))));
         }
     }
